@@ -295,6 +295,16 @@ func HarnessC08Reuse() {
 		}
 		verifCheckGroups(d, given, changed(d), res, "C08: a Query value changed by the caller and executed again differs from a fresh equal query")
 	}
+	// the caller takes an operand away in place (the tree becomes incomplete under the same
+	// root): like a freshly constructed equal query, the execution fails with an error
+	if len(operands) == 3 {
+		operands[2] = nil
+		res, err := idx1.Execute(q)
+		verifAssert(err != nil && res == nil, "C08: a Query value made incomplete by the caller after an execution was executed instead of being rejected")
+		derived := *q
+		res, err = idx2.Execute(&derived)
+		verifAssert(err != nil && res == nil, "C08: a copy of a Query value made incomplete by the caller was executed instead of being rejected")
+	}
 	idx1.Close()
 	idx2.Close()
 	idx3.Close()
